@@ -223,8 +223,10 @@ def run(ctx: Context, rep) -> None:
                             n.value, ast.Name):
                     to_dict = mod.functions.get(
                         f"RustGenerator.__init__.<locals>.{n.value.id}")
-        if to_dict is not None and any(ast.unparse(c.func).endswith(
-                "decode_array") for c in to_dict.calls()):
+        if to_dict is not None and any(
+                "_rust_iter" in ast.unparse(c.args[1]) for c in single.calls()
+                if isinstance(c.func, ast.Name) and c.func.id == "map" and
+                len(c.args) == 2 and dotted(c.args[0]) == f"self.{dn}"):
             dec_names = [dn]
             break
         to_dict = None
